@@ -13,6 +13,12 @@ R04.5 a sequence derived from a realised string carries the receiver's own
 
 Added in build round 2 (see DESIGN.md section 3, round-2 table):
 R04.6 make_feature relates each span of a feature to the half-open range [0, len(self)) of the view: on EVERY weak ordering of (span start, span end, 0, ...
+
+Added later in build rounds 2-3 (see DESIGN.md section 3, round-2/3 table):
+R04.10 coordinates are stored where they can be stored: in the Sequence classes every `self.<name> = ...` whose <name> resolves (MRO) to a property has a ...
+R04.7 a derived sequence keeps every annotation that overlaps its view: wherever a sequence / alignment method narrows the annotation db to a coordinate ...
+R04.8 annotations travel with coordinates: when a method hands the receiver's annotation db to a sequence it has just built (`new.annotation_db = ...
+R04.9 a copy keeps its annotations whatever the strand of the receiver: in the deepcopy methods of the collection / aligned classes the annotation db of ...
 """
 
 from __future__ import annotations
